@@ -83,7 +83,10 @@ def e1(chk, op):
             # (b) dominating membership test
             if not ok:
                 for test, pol in guards_of(e.node, fi.node):
-                    if pol and isinstance(test, ast.Compare) and isinstance(test.ops[0], ast.In) and effects.is_mapper_expr(repo, fi, test.comparators[0]):
+                    while isinstance(test, ast.UnaryOp) and isinstance(test.op, ast.Not):
+                        test, pol = test.operand, not pol
+                    member = isinstance(test, ast.Compare) and len(test.ops) == 1 and ((pol and isinstance(test.ops[0], ast.In)) or (not pol and isinstance(test.ops[0], ast.NotIn)))
+                    if member and effects.is_mapper_expr(repo, fi, test.comparators[0]):
                         if norm(test.left) == norm(e.node.slice):
                             ok = True
                             how = f"guarded by `{norm(test)}`"
@@ -151,13 +154,30 @@ def e3(chk, op):
                 if dims is None and c.args and isinstance(c.args[0], (ast.List, ast.Tuple)):
                     dims = [const_str(x) for x in c.args[0].elts]
     md = repo.module("ceos_alos2.sar_image.metadata")
-    tl = md.func("transform_line_metadata")
-    consed = None
-    for c in calls_in(tl):
-        if isinstance(c.func, ast.Name) and c.func.id == "curry" and len(c.args) == 2 and isinstance(c.args[0], ast.Name) and c.args[0].id == "cons":
-            consed = const_str(c.args[1])
-    chk.require(dims is not None and consed is not None and dims[0] == consed, "C18-E3", op.where(oi),
-                f"image variable dims {dims} and the per-line dimension {consed!r} tie the header line count to the number of parsed records",
+    # first dimension of every per-line variable, from the shape inferred for transform_line_metadata on both record types
+    from ..records import Layouts
+    from ..shapes import DictS, ListLit, Obj, TupS, Const as SConst
+    from ..shapes_rules import pipelines
+    P = pipelines(repo, Layouts(repo))
+    first_dims, nvars = set(), 0
+    for pipe in ("lines:signal", "lines:processed"):
+        res = P.get(pipe)
+        data = res.fields.get("data") if isinstance(res, Obj) else None
+        if not isinstance(data, DictS):
+            raise AnalysisError(f"shape inference gives no group of variables for {pipe}; the per-line dimension is not decided")
+        for name, v in data.items.items():
+            if isinstance(v, Obj) and v.cls == "Variable":
+                d = v.fields.get("dims")
+                nvars += 1
+                if isinstance(d, (ListLit, TupS)) and d.elts and isinstance(d.elts[0], SConst):
+                    first_dims.add(d.elts[0].v)
+                else:
+                    first_dims.add(f"<{name}: {d!r}>")
+    if nvars == 0:
+        raise AnalysisError("no per-line variable found by shape inference")
+    consed = next(iter(first_dims)) if len(first_dims) == 1 else sorted(map(str, first_dims))
+    chk.require(dims is not None and len(first_dims) == 1 and dims[0] == consed, "C18-E3", op.where(oi),
+                f"image variable dims {dims} and the first dimension {consed!r} of all {nvars} per-line variables tie the header line count to the number of parsed records",
                 f"image variable dims {dims} vs per-line dimension {consed!r}: a short read no longer conflicts with the declared shape", key="rows-tie",
                 sample={"image dims": dims, "per-line dim": consed})
     tm = md.func("transform_metadata")
